@@ -220,6 +220,18 @@ func makeTarget(
 	segments pathSegments,
 	variables []pathVariable,
 ) (*routeTarget, error) {
+	// Field paths are resolved against the descriptors of the message types
+	// that will actually be instantiated: a type resolver may supply a type
+	// whose descriptor is another instance than the method's (same schema,
+	// loaded separately), and field descriptors are only valid on messages
+	// of the descriptor instance they come from.
+	input, output := config.descriptor.Input(), config.descriptor.Output()
+	if config.requestType != nil {
+		input = config.requestType.Descriptor()
+	}
+	if config.responseType != nil {
+		output = config.responseType.Descriptor()
+	}
 	var requestBodyFields []protoreflect.FieldDescriptor
 	if requestBody == "*" {
 		// non-nil, empty slice means use the whole thing
@@ -227,7 +239,7 @@ func makeTarget(
 	} else if requestBody != "" {
 		var err error
 		requestBodyFields, err = resolvePathToFieldDescriptors(
-			config.descriptor.Input(), requestBody, false,
+			input, requestBody, false,
 		)
 		if err != nil {
 			return nil, err
@@ -246,7 +258,7 @@ func makeTarget(
 	} else if responseBody != "" {
 		var err error
 		responseBodyFields, err = resolvePathToFieldDescriptors(
-			config.descriptor.Output(), responseBody, false,
+			output, responseBody, false,
 		)
 		if err != nil {
 			return nil, err
@@ -261,7 +273,7 @@ func makeTarget(
 	routeTargetVars := make([]routeTargetVar, len(variables))
 	for i, variable := range variables {
 		fields, err := resolvePathToFieldDescriptors(
-			config.descriptor.Input(), variable.fieldPath, false,
+			input, variable.fieldPath, false,
 		)
 		if err != nil {
 			return nil, err
